@@ -82,6 +82,10 @@ func TestCheck(t *testing.T) {
 			workflowSkipCase(ctx, rep, rng, cfg)
 			return
 		}
+		if idx%8 == 5 || idx%8 == 1 {
+			eagerEndCase(ctx, rep, rng, cfg)
+			return
+		}
 		mode := []gspec.Mode{gspec.DAG, gspec.Workflow, gspec.Pregel}[idx%3]
 		spec := gspec.Gen(rng, genOpts(rng, cfg, mode))
 		streamify(rng, spec)
@@ -254,12 +258,16 @@ func specCase(ctx context.Context, rep *mon.Reporter, rng *mon.Rand, cfg mon.Con
 func oneRun(ctx context.Context, rep *mon.Reporter, spec *gspec.GraphSpec, r compose.Runnable[gspec.V, gspec.V], in gspec.V, ref *gspec.RefResult, para string, stop int, hm handlerMode, seed uint64, sample bool) (int, bool) {
 	ctl := gspec.NewCtl("r")
 	ctl.Choices = forced
+	installDelays(ctl) // completion orders (eager_test.go); no delays unless the case asked for them
 	rctx := gspec.WithCtl(ctx, ctl)
 	var opts []compose.Option
 	if hm != noHandler {
 		opts = append(opts, compose.WithCallbacks(handler(hm)))
 	}
 	wit := map[string]any{"spec": spec, "input": in, "paradigm": para, "stop_after_chunks": stop, "handler": hm.String()}
+	for k, v := range runHooks.witness {
+		wit[k] = v
+	}
 	before := map[int]bool{}
 	for _, g := range mon.Dump() {
 		before[g.ID] = true // goroutines an earlier (already reported) leak left behind are not counted again
@@ -321,8 +329,11 @@ func oneRun(ctx context.Context, rep *mon.Reporter, spec *gspec.GraphSpec, r com
 		return read, true
 	}
 	rep.Count("leak_checks_settled", 1)
-	_, prods, _, _ := ctl.Log.Snapshot()
+	execs, prods, _, _ := ctl.Log.Snapshot()
 	rep.Count("producers_observed", int64(len(prods)))
+	if runHooks.after != nil {
+		runHooks.after(execs, prods)
+	}
 	var parked []mon.G
 	for _, g := range mon.Parked(gs, "github.com/cloudwego/eino/", "verifProducer", "verifLazyTransform", "verifRenameForward", "verifInputProducer", "verifCallbackReader", "verifCallbackInReader") {
 		if !before[g.ID] {
@@ -344,6 +355,9 @@ func oneRun(ctx context.Context, rep *mon.Reporter, spec *gspec.GraphSpec, r com
 		}
 		sort.Strings(sigs)
 		cause := classify(spec, ref, unreleased)
+		if runHooks.classify != nil {
+			cause = runHooks.classify(unreleased)
+		}
 		rep.Violation(ID+"/leak/"+cause, fmt.Sprintf("after the run finished and its output was %s, %d goroutine(s) stay blocked forever and %d producer(s) were never released: %v\nparked: %v\n%s\n%s", how(stop), len(parked), len(unreleased), unreleased, uniq(sigs), extra, raw.String()), wit)
 		return read, false
 	}
